@@ -558,4 +558,12 @@ def r07_9(ctx):
     return o
 
 
-RULES = [r07_1, r07_2, r07_4, r07_5, r07_6, r07_7, r07_8, r07_9]
+def r07_10(ctx):
+    from rules import C15
+    o = C15.r15_2(ctx)
+    o.rule = "R07.10"
+    o.text = ("== compares cleaned copies: clean() unites redundant pieces to a fixpoint (a freshly united segment is tried against its next neighbour again, the wrap-around pair included), so that a curve with several redundant vertices on one segment equals the curve without them (same analysis as R15.2)")
+    return o
+
+
+RULES = [r07_1, r07_2, r07_4, r07_5, r07_6, r07_7, r07_8, r07_9, r07_10]
